@@ -774,12 +774,27 @@ class Unit:
         # number of loops and closures it had when the contract was written (contracts/shape.lock.json, dev/mklock.py).  An edit that
         # adds or removes a loop/closure would silently shift the annotations onto other constructs: that is a lost anchor
         # (undecided), never a verdict.
-        shape = [len(self.find_loops(t)), len(self.find_closures(t))]
+        loops0 = self.find_loops(t)
+        clos0 = self.find_closures(t)
+        heads = []
+        for (lp, w) in loops0:
+            try:
+                heads.append(norm_ws(t[lp:find_block_open(t, lp)]))
+            except Exception:
+                heads.append('?')
+        cheads = [norm_ws(t[a:pe]) for (a, pe, bs, be, isb) in clos0]
+        shape = [len(loops0), len(clos0), sha('\n'.join(heads)), sha('\n'.join(cheads))]
         meta['shape'] = shape
         lock = self.shape_lock()
-        if c and (c.loops or c.closures) and lock is not None and key in lock and list(lock[key]) != shape:
-            raise ExtractError('%s: lost anchor: the function now has %d loops / %d closures, the contract was written for %d / %d'
-                               % (key, shape[0], shape[1], lock[key][0], lock[key][1]))
+        if c and (c.loops or c.closures) and lock is not None and key in lock:
+            want = list(lock[key])
+            if want[:2] != shape[:2]:
+                raise ExtractError('%s: lost anchor: the function now has %d loops / %d closures, the contract was written for %d / %d'
+                                   % (key, shape[0], shape[1], want[0], want[1]))
+            if len(want) >= 4 and c.loops and want[2] != shape[2]:
+                raise ExtractError('%s: lost anchor: a loop header changed (the loop invariants were written for other loops): now %s' % (key, ' ; '.join(heads)[:200]))
+            if len(want) >= 4 and c.closures and want[3] != shape[3]:
+                raise ExtractError('%s: lost anchor: a closure header changed (the closure contracts were written for other closures): now %s' % (key, ' ; '.join(cheads)[:200]))
         # --- statement anchors are located on the pristine text and marked; the ghost text is spliced in at the very end
         anchors = []
         if c:
@@ -835,7 +850,7 @@ class Unit:
         if self.cfg.get('auto_algebra', True) and not (c and c.nohints):
             hints = getattr(self, 'entry_hints', DEFAULT_ENTRY_HINTS)
             if self.cfg.get('second_opinion'):
-                hints = hints.replace('crate::vspec::use_id_order::<C>(); }', 'crate::vspec::use_id_order::<C>(); crate::vspec::use_ac::<C>(); }')
+                hints = hints.replace('crate::vspec::use_id_order::<C>(); }', 'crate::vspec::use_id_order::<C>(); crate::vspec::use_ac%s::<C>(); }' % int(self.cfg.get('second_opinion')))
             entry = hints + entry
         if self.cfg.get('canary'):
             # vacuity guard (DESIGN 2.7): with this flag every verified function must FAIL
